@@ -88,14 +88,19 @@ func runPlain(t *testing.T, col *ev.Collector, replayTest string, body func(fail
 	col.SetReplayTest(replayTest)
 	defer func() { col.Report(t.Failed()) }()
 	stop := false
+	seenKeys := map[string]bool{}
 	var mu sync.Mutex
 	body(func(v *ev.Violation, c any) {
 		mu.Lock()
 		defer mu.Unlock()
-		if stop {
+		if col.IsKnown(v) {
 			return
 		}
-		if col.IsKnown(v) {
+		if !seenKeys[v.Key] {
+			seenKeys[v.Key] = true
+			fmt.Printf("  distinct-violation-key %s: %s\n", v.Key, v.What)
+		}
+		if stop {
 			return
 		}
 		stop = true
